@@ -210,6 +210,15 @@ theorem onPacketAck_char (L : Nat) (s : State) (a : AckSet) (hinv : Inv L s.ackR
     refine Or.inl ⟨r, rfl, hlo, ?_⟩
     simp only [hrm]
 
+theorem onPacketAck_fields (s : State) (a : AckSet) (s' : State) (h : onPacketAck s a = some s') :
+    s'.ackDelayTimer = s.ackDelayTimer ∧ s'.transmissionState = s.transmissionState ∧ s'.ackSettings = s.ackSettings := by
+  unfold onPacketAck at h
+  split at h
+  · split at h
+    · cases h; exact ⟨rfl, rfl, rfl⟩
+    · cases h
+  · cases h; exact ⟨rfl, rfl, rfl⟩
+
 -- ---------------------------------------------------------------------------------------------
 -- `ack_ranges` under a history = a sequence of `ack::Ranges` operations
 
